@@ -12,7 +12,7 @@ import json,re,sys
 m=json.load(open('$d/meta.json'))
 ids=[]
 for c in m.get('caught_by',[]):
-    for x in re.findall(r'C\d\d', c):
+    for x in re.findall(r'^\s*(C\d\d)', c):
         if x not in ids: ids.append(x)
 print(' '.join(ids))")
   [ -z "$ids" ] && { echo "$s: (declared not caught / outside the domain)"; continue; }
